@@ -764,6 +764,122 @@ def ibmq_suite(ctx, nb):
     ctx.ob("C19_corr_ibmq", bad == 0, "correspondence", f"{bad} disagreements" if bad else "")
 
 
+# -- histories: add and apply interleaved on one model object --------------------------------
+
+
+def gen_ibmq_params(rng, n, per_qubit, shift=0):
+    sub = lambda: [q for q in range(n) if rng.random() < 0.7] or [0]  # noqa: E731
+    if not per_qubit:
+        return {"depolarizing_one_qubit": 0.0625 + shift / 128, "depolarizing_two_qubit": 0.125 + shift / 128, "t1": 1.0 + shift, "t2": 0.75,
+                "gate_times": (0.125, 0.25), "excited_population": 0, "readout_one_qubit": 0.125 + shift / 64}
+    tq = sub()
+    return {
+        "depolarizing_one_qubit": {str(q): (q + 1 + 4 * shift) / 32 for q in sub()},
+        "depolarizing_two_qubit": {f"{a}-{b}": (a + 2 * b + 1 + shift) / 64 for a, b in rng.sample(list(itertools.permutations(range(n), 2)), min(3, n * (n - 1)))},
+        "t1": {str(q): 1.0 + q + shift for q in tq}, "t2": {str(q): 0.5 + q for q in tq},
+        "gate_times": (0.125, 0.25), "excited_population": 0.25,
+        "readout_one_qubit": {str(q): rng.choice([(q + 1 + shift) / 32, ((q + 1) / 32, (q + 1 + shift) / 64)]) for q in sub()},
+    }
+
+
+def history_suite(ctx, nb):
+    """one model object used repeatedly: `add` and `apply` interleaved (apply, add a rule keyed on
+    None / on a class met before / on another class, with filters and conditions, apply again on
+    the same and on other circuits); `IBMQNoiseModel.from_dict` called twice on one object.
+    Every apply is compared with a FRESH model holding the same rules in the same order and with
+    the Lean model of that rule list."""
+    rng = ctx.rng
+    bad = 0
+    records, lines = [], []  # record: (replay source, real queue, fresh queue, in_gates, rules, ns)
+    for _ in range(90 if ctx.thorough else 30):
+        n = rng.choice([2, 3, 3, 4])
+        ibmq = rng.random() < 0.25
+        ncirc = rng.choice([1, 2, 2, 3])
+        csrc = ""
+        gss = []
+        for k in range(ncirc):
+            if ibmq:
+                gs = gen_circuit(rng, n, rng.randint(2, 6), allow_m=False, allow_chan=False) + [f"gates.M({q})" for q in rng.sample(range(n), rng.randint(1, n))]
+            else:
+                gs = gen_circuit(rng, n, rng.randint(2, 6))
+            gss.append(gs)
+            csrc += f"c{k} = Circuit({n}, density_matrix=True)\n" + "".join(f"c{k}.add({g})\n" for g in gs)
+        present = sorted({g.split("(")[0].split(".")[1] for gs in gss for g in gs})
+        cls = "IBMQNoiseModel" if ibmq else "NoiseModel"
+        try:
+            ns = run_source(csrc + f"nm = {cls}()\n")
+        except Exception:  # noqa: BLE001 - invalid generated circuit
+            ctx.stat("gen_invalid")
+            continue
+        hist = csrc + f"nm = {cls}()\n"
+        adds = []  # source lines of the rule additions so far
+        rules = []
+        nops = rng.randint(4, 9)
+        napply = 0
+        for step in range(nops):
+            do_add = step == 0 or (rng.random() < 0.45 and step != nops - 1)
+            if do_add:
+                if ibmq:
+                    params = gen_ibmq_params(rng, n, rng.random() < 0.7, shift=len(adds))
+                    line = f"nm.from_dict({params!r})"
+                    new_rules = ibmq_rules(params, n)
+                else:
+                    # keyed on None (merged into every class already met), on a class already met, or on another one
+                    key = rng.choice([None, None] + present + [rng.choice(GATE_CLASSES[:17])])
+                    rule = gen_rule(rng, n, len(rules), [key])
+                    line = rule_add_src(rule)
+                    new_rules = [rule]
+                try:
+                    exec(line, ns)  # noqa: S102
+                except Exception as e:  # noqa: BLE001
+                    bad += 1
+                    ctx.fail("apply:history:add-raises", f"adding a rule after an apply raises {type(e).__name__}: {e}", PRELUDE + hist + line + "\n", broken=["C19_history"])
+                    break
+                hist += line + "\n"
+                adds.append(line)
+                rules = rules + new_rules
+                continue
+            k = rng.randrange(ncirc)
+            c = ns[f"c{k}"]
+            fresh_src = f"fresh = {cls}()\n" + "".join(a.replace("nm.", "fresh.", 1) + "\n" for a in adds)
+            replay = (PRELUDE + hist + fresh_src + f"a = show(nm.apply(c{k})); b = show(fresh.apply(c{k}))\nprint(a); print(b)\n"
+                      "assert a == b, 'a model that was applied before a rule was added differs from a fresh model with the same rules'\n")
+            try:
+                noisy = ns["nm"].apply(c)
+                exec(fresh_src, ns)  # noqa: S102
+                fresh = ns["fresh"].apply(c)
+            except Exception as e:  # noqa: BLE001
+                bad += 1
+                ctx.fail("apply:history:raises", f"apply in a history raises {type(e).__name__}: {e}", replay, broken=["C19_history"])
+                break
+            hist += f"nm.apply(c{k})\n"
+            napply += 1
+            records.append((replay, list(noisy.queue), list(fresh.queue), list(c.queue), list(rules), ns, napply, len(adds)))
+            lines.append(apply_line(list(c.queue), rules))
+        ctx.stat("history_ibmq" if ibmq else "history_noise_model")
+    outs = run_driver(lines, driver=DRIVER)
+    for (replay, real_q, fresh_q, in_gates, rules, ns, napply, nadds), out in zip(records, outs):
+        ctx.case(("history", replay))
+        ctx.stat("history_applies")
+        if napply > 1:
+            ctx.stat("history_apply_after_add_after_apply")
+        real = [desc(g, nb) for g in real_q]
+        fr = [desc(g, nb) for g in fresh_q]
+        if real != fr:
+            bad += 1
+            ctx.fail("apply:history:add-after-apply", f"apply number {napply} of a model object (after {nadds} add calls interleaved with applies) differs from a fresh "
+                     f"model with the same rules: got {short(real)}, fresh model gives {short(fr)}", replay, expected=str(short(fr)), observed=str(short(real)),
+                     broken=["C19_history"])
+            continue
+        res = compare_queue(real_q, parse_items(out), in_gates, rules, ns, nb)
+        if res is not None:
+            bad += 1
+            msg, real, exp = res
+            ctx.fail("apply:history:model", f"history apply differs from the Lean model of the rule list: {msg}: got {short(real)}, prescribed {short(exp)}", replay,
+                     expected=str(short(exp)), observed=str(short(real)), broken=["C19_history"])
+    ctx.ob("C19_history", bad == 0, "correspondence", f"{bad} disagreements" if bad else "")
+
+
 # -- with_pauli_noise ---------------------------------------------------------------------
 
 
@@ -910,10 +1026,21 @@ def ns_copy(ns, src):
 # -- trajectories vs density matrix --------------------------------------------------------
 
 
+class TapeMismatch(Exception):
+    """the real sampling step does not offer the index a tape asks for."""
+
+
 class TapeBackend:
-    """the real NumpyBackend with `sample_shots` answering from a tape for the calls made by
-    `apply_channel` (recognised by nshots == 1 while a tape is active); every probability
-    vector handed to it is recorded."""
+    """the real NumpyBackend whose random draw inside `apply_channel` is forced.
+
+    The hook sits at the sampler (`backend.sample_shots`, the only random call of
+    `apply_channel`): the REAL sampler is called first with the probability vector the real
+    code built (so an unacceptable vector is rejected as in production), then its answer is
+    replaced by the forced index.  What the real code does with the index (index -> gate or
+    identity) is therefore exercised as it is.  The weight of a trajectory is the product of
+    the entries `probabilities[index]` of the vectors the real code handed to the sampler.
+    `free=True`: positions beyond the tape draw index 0 (used to enumerate the real sampling
+    tree: the number of choices at each step is read from the real vectors)."""
 
     def __init__(self):
         from qibo.backends import NumpyBackend
@@ -921,8 +1048,10 @@ class TapeBackend:
         self.b = NumpyBackend()
         self.real_sample = self.b.sample_shots
         self.tape = None
+        self.free = False
         self.weight = 1.0
         self.seen = []
+        self.used = []
         self.b.sample_shots = self.sample
         self.in_channel = False
         real_apply_channel = self.b.apply_channel
@@ -939,10 +1068,18 @@ class TapeBackend:
     def sample(self, probabilities, nshots):
         if self.tape is None or nshots != 1 or not self.in_channel:
             return self.real_sample(probabilities, nshots)
-        if not self.tape:
-            raise RuntimeError("tape exhausted")
-        i = self.tape.pop(0)
-        self.seen.append(len(probabilities))
+        self.real_sample(probabilities, nshots)  # the real draw (validates the vector); its value is replaced
+        npr = len(probabilities)
+        if self.tape:
+            i = self.tape.pop(0)
+        elif self.free:
+            i = 0
+        else:
+            raise TapeMismatch("tape exhausted: more channels sample than the tape has entries")
+        if i >= npr:
+            raise TapeMismatch(f"index {i} is not offered: the sampler gets {npr} probabilities")
+        self.seen.append(npr)
+        self.used.append(i)
         self.weight *= float(probabilities[i])
         return np.array([i])
 
@@ -953,15 +1090,37 @@ def tape_sizes(queue):
     return [len(g.gates) + 1 for g in queue if isinstance(g, gates.UnitaryChannel)]
 
 
-def run_trajectory(tb, queue, psi, n, tape):
-    tb.tape, tb.weight, tb.seen = list(tape), 1.0, []
-    state = tb.b.cast(psi, copy=True)
-    for g in queue:
-        state = g.apply(tb.b, state, n)
-    if tb.tape:
-        raise RuntimeError("tape not consumed")
-    tb.tape = None
+def run_trajectory(tb, queue, psi, n, tape, free=False):
+    tb.tape, tb.weight, tb.seen, tb.used, tb.free = list(tape), 1.0, [], [], free
+    try:
+        state = tb.b.cast(psi, copy=True)
+        for g in queue:
+            state = g.apply(tb.b, state, n)
+        if tb.tape:
+            raise TapeMismatch("tape not consumed: fewer channels sample than the tape has entries")
+    finally:
+        tb.tape, tb.free = None, False
     return np.asarray(state), tb.weight
+
+
+def enumerate_real(tb, queue, psi, n, limit=20000):
+    """every leaf of the REAL sampling tree of one state-vector shot: [(indices, weight, state)].
+    The number of choices at each sampling step is the length of the vector the real code
+    hands to the sampler."""
+    out = []
+    tape = []
+    while True:
+        st, w = run_trajectory(tb, queue, psi, n, tape, free=True)
+        used, sizes = list(tb.used), list(tb.seen)
+        out.append((tuple(used), w, st))
+        if len(out) > limit:
+            raise RuntimeError("too many trajectories")
+        k = len(used) - 1
+        while k >= 0 and used[k] + 1 >= sizes[k]:
+            k -= 1
+        if k < 0:
+            return out
+        tape = used[:k] + [used[k] + 1]
 
 
 def mixture_rules(rng, n, keys, nrules, dyadic):
@@ -1009,10 +1168,14 @@ def trajectory_suite(ctx):
         psi /= np.linalg.norm(psi)
         mean = np.zeros((d, d), dtype=complex)
         wsum = 0.0
-        for tape in itertools.product(*[range(s) for s in sizes]):
-            st, w = run_trajectory(tb, queue, psi, n, tape)
-            mean += w * np.outer(st, st.conj())
-            wsum += w
+        try:
+            for _, w, st in enumerate_real(tb, queue, psi, n):
+                mean += w * np.outer(st, st.conj())
+                wsum += w
+        except Exception as e:  # noqa: BLE001
+            bad += 1
+            ctx.fail("trajectory-mean:raises", f"state-vector trajectory raises {type(e).__name__}: {e}", PRELUDE + src + TRAJ_REPLAY, broken=["C19_trajectory_exact"])
+            continue
         cdm = Circuit(n, density_matrix=True)
         for g in queue:
             cdm.add(g)
@@ -1029,20 +1192,24 @@ def trajectory_suite(ctx):
     ctx.ob("C19_trajectory_exact", bad == 0, "search", f"{bad} failures" if bad else "")
 
 
-TRAJ_REPLAY = '''import itertools
-from qibo.backends import NumpyBackend
-b = NumpyBackend(); tape = []; weight = [1.0]
+TRAJ_REPLAY = '''from qibo.backends import NumpyBackend
+b = NumpyBackend(); real = b.sample_shots; tape = []; used = []; sizes = []; weight = [1.0]
 def forced(probabilities, nshots):
-    i = tape.pop(0); weight[0] *= float(probabilities[i]); return np.array([i])
+    real(probabilities, nshots)
+    i = tape.pop(0) if tape else 0
+    used.append(i); sizes.append(len(probabilities)); weight[0] *= float(probabilities[i]); return np.array([i])
 b.sample_shots = forced
-n = c.nqubits; d = 2**n
+n = noisy.nqubits; d = 2**n
 psi = np.arange(1, d + 1) * (1 + 0.5j); psi = psi / np.linalg.norm(psi)
-sizes = [len(g.gates) + 1 for g in noisy.queue if isinstance(g, gates.UnitaryChannel)]
-mean = np.zeros((d, d), dtype=complex)
-for t in itertools.product(*[range(s) for s in sizes]):
-    tape[:] = list(t); weight[0] = 1.0; st = psi.copy()
+mean = np.zeros((d, d), dtype=complex); t = []
+while True:
+    tape[:] = list(t); used[:] = []; sizes[:] = []; weight[0] = 1.0; st = psi.copy()
     for g in noisy.queue: st = g.apply(b, st, n)
     mean += weight[0] * np.outer(st, st.conj())
+    k = len(used) - 1
+    while k >= 0 and used[k] + 1 >= sizes[k]: k -= 1
+    if k < 0: break
+    t = used[:k] + [used[k] + 1]
 cdm = Circuit(n, density_matrix=True)
 for g in noisy.queue: cdm.add(g)
 rho = NumpyBackend().execute_circuit(cdm, initial_state=np.outer(psi, psi.conj())).state()
@@ -1087,12 +1254,17 @@ def exec_suite(ctx):
         nch = 0
         for _ in range(rng.randint(1, 5)):
             if rng.random() < 0.45 and nch < 3:
-                nops = rng.randint(1, 3)
+                if rng.random() < 0.45:
+                    # no identity remainder: the coefficients sum to exactly 1
+                    probs = rng.choice([[(1, 0)], [(1, 1), (1, 1)], [(1, 2), (1, 2), (1, 1)], [(1, 2), (3, 2)], [(1, 3), (3, 3), (1, 1)],
+                                        [(0, 0), (1, 0)], [(1, 1), (1, 2), (1, 2)]])
+                else:
+                    probs = [(rng.choice([0, 1, 1, 2, 3]), rng.choice([3, 4])) for _ in range(rng.randint(1, 3))]
                 ops = []
-                for j in range(nops):
+                for pn, pe in probs:
                     name = rng.choice([k for k, v in INT_GATES.items() if v[1] <= n and k in ("X", "Z", "Y", "CX", "B")])
                     ts = rng.sample(range(n), INT_GATES[name][1])
-                    ops.append((rng.choice([0, 1, 1, 2, 3]), rng.choice([3, 4]), name, ts))
+                    ops.append((pn, pe, name, ts))
                 items.append(("m", ops))
                 nch += 1
             else:
@@ -1124,21 +1296,36 @@ def exec_suite(ctx):
         body = f"{n} {len(toks)} {' '.join(toks)} {ptoks}"
         sizes = tape_sizes(queue)
         tapes = list(itertools.product(*[range(s) for s in sizes]))
-        picks = [tapes[0], tapes[-1]] + [rng.choice(tapes) for _ in range(2)]
+        # trajectories of probability 0 (a zero coefficient, or the identity index of a mixture without
+        # remainder) carry no weight: whether the sampler is offered them at all is not observable
+        mixes = [it[1] for it in items if it[0] == "m"]
+        full = any(sum(pn / 2**pe for pn, pe, _, _ in ops) == 1 for ops in mixes)
+
+        def tape_weight(t, mixes=mixes):
+            w = 1.0
+            for ops, i in zip(mixes, t):
+                w *= ops[i][0] / 2 ** ops[i][1] if i < len(ops) else 1 - sum(pn / 2**pe for pn, pe, _, _ in ops)
+            return w
+
+        live = [t for t in tapes if tape_weight(t) != 0]
+        picks = [live[0], live[-1]] + [rng.choice(live) for _ in range(3)]
         base = len(lines)
         lines.append("QDM " + body)
         lines.append("QMEAN " + body)
         lines.append(f"TAPES {len(toks)} {' '.join(toks)}")
         for t in picks:
             lines.append(f"QTAPE {body} {len(t)} {' '.join(map(str, t))}")
-        meta.append((n, items, queue, psi, tapes, picks, base))
+        meta.append((n, items, queue, psi, tapes, picks, base, live, full))
     outs = run_driver(lines, driver=DRIVER)
     bad = 0
-    for n, items, queue, psi, tapes, picks, base in meta:
+    for n, items, queue, psi, tapes, picks, base, live, full in meta:
         d = 2**n
         descr = [(it[1], it[2], it[3]) if it[0] == "g" else ("mix", [(f"{pn}/2^{pe}", nm, ts) for pn, pe, nm, ts in it[1]]) for it in items]
         ctx.case(("exec", n, repr(descr), repr(psi.tolist())))
         ctx.stat("exec_tapes", len(tapes))
+        if full:
+            ctx.stat("exec_full_weight_mixture_cases")
+        tkey = "trajectory:full-weight-mixture" if full else None
         cdm = Circuit(n, density_matrix=True)
         for g in queue:
             cdm.add(g)
@@ -1152,26 +1339,129 @@ def exec_suite(ctx):
         if model_tapes != [tuple(t) for t in tapes]:
             msgs.append(("exec:tapes", "set of trajectories differs", model_tapes, tapes))
         mean = np.zeros((d, d), dtype=complex)
-        for t in tapes:
-            st, w = run_trajectory(tb, queue, psi.astype(complex), n, t)
-            mean += w * np.outer(st, st.conj())
-        if not np.array_equal(mean.reshape(-1), model_mean):
-            msgs.append(("exec:trajectory-mean", "weighted sum of trajectory projectors differs from the model", model_mean, mean.reshape(-1)))
+        try:
+            for t in live:
+                st, w = run_trajectory(tb, queue, psi.astype(complex), n, t)
+                mean += w * np.outer(st, st.conj())
+            if not np.array_equal(mean.reshape(-1), model_mean):
+                msgs.append((tkey or "exec:trajectory-mean", "weighted sum of trajectory projectors differs from the model", model_mean, mean.reshape(-1)))
+            # and the leaves of the REAL sampling tree (choices = entries of the real probability vectors)
+            rmean = np.zeros((d, d), dtype=complex)
+            for _, w, st in enumerate_real(tb, queue, psi.astype(complex), n):
+                rmean += w * np.outer(st, st.conj())
+            if not np.array_equal(rmean.reshape(-1), rho):
+                msgs.append((tkey or "exec:trajectory-mean", "weighted sum over the real sampling tree differs from the real density-matrix execution", rho, rmean.reshape(-1)))
+        except Exception as e:  # noqa: BLE001
+            msgs.append((tkey or "exec:trajectory", f"forced state-vector trajectory raises {type(e).__name__}: {e}", None, None))
         if not np.array_equal(model_mean, model_dm):
             msgs.append(("exec:model-inconsistent", "model: trajectory mean != density matrix (contradicts T19_trajectory_mean)", model_mean, model_dm))
         for k, t in enumerate(picks):
             o = outs[base + 3 + k].split("|")
             w_model = parse_dg(o[0].split())[0]
             st_model = parse_dg(o[1].split())
-            st, w = run_trajectory(tb, queue, psi.astype(complex), n, t)
+            try:
+                st, w = run_trajectory(tb, queue, psi.astype(complex), n, t)
+            except Exception as e:  # noqa: BLE001
+                msgs.append((tkey or "exec:trajectory", f"trajectory {t} raises {type(e).__name__}: {e}", None, None))
+                break
             if w_model != w or not np.array_equal(st_model, st):
-                msgs.append(("exec:trajectory", f"trajectory {t}: probability or state differs from the model", (w_model, st_model.tolist()), (w, st.tolist())))
+                msgs.append((tkey or "exec:trajectory", f"trajectory {t}: probability or state differs from the model", (w_model, st_model.tolist()), (w, st.tolist())))
                 break
         for key, what, exp, obs in msgs:
             bad += 1
-            ctx.fail(key, what + f" for queue {descr}, psi={psi.tolist()}", "# queue: " + repr(descr) + "\nraise SystemExit(1)\n", expected=str(exp), observed=str(obs),
-                     broken=["C19_corr_exec"])
+            ctx.fail(key, what + f" for queue {descr}, psi={psi.tolist()}", exec_replay(n, items, psi), expected=str(exp), observed=str(obs),
+                     broken=["C19_corr_exec", "C19_full_weight_mixture"] if key == "trajectory:full-weight-mixture" else ["C19_corr_exec"])
     ctx.ob("C19_corr_exec", bad == 0, "correspondence", f"{bad} disagreements" if bad else "")
+
+
+def exec_replay(n, items, psi):
+    """self-contained replay of an exec_suite case: real sampling tree vs density matrix."""
+    lines = [f"INT = {INT_GATES!r}", f"noisy = Circuit({n})"]
+    for it in items:
+        if it[0] == "g":
+            g = f"gates.Unitary(np.array(INT[{it[1]!r}][0], dtype=complex), {_q(it[2])}, check_unitary=False)"
+            if it[3]:
+                g += f".controlled_by({_q(it[3])})"
+            lines.append(f"noisy.add({g})")
+        else:
+            ops = ", ".join(f"({pn} / 2**{pe}, gates.Unitary(np.array(INT[{nm!r}][0], dtype=complex), {_q(ts)}, check_unitary=False))" for pn, pe, nm, ts in it[1])
+            lines.append(f"noisy.add(gates.UnitaryChannel([], [{ops}]))")
+    body = "\n".join(lines) + "\n"
+    rp = TRAJ_REPLAY.replace("psi = np.arange(1, d + 1) * (1 + 0.5j); psi = psi / np.linalg.norm(psi)", f"psi = np.array({psi.tolist()!r}, dtype=complex)")
+    return PRELUDE + body + rp
+
+
+# -- mixtures without identity remainder ---------------------------------------------------
+
+
+def full_weight_suite(ctx):
+    """unitary mixtures whose coefficients sum to 1 (exactly, or up to rounding): no identity
+    remainder.  UnitaryChannel / PauliNoiseChannel / DepolarizingChannel at its maximal
+    parameter, on 1-2 qubit targets in any order, inside small circuits; every leaf of the real
+    sampling tree (random draw forced at the sampler) weighted by the real probability vectors
+    against the real density-matrix execution."""
+    from qibo import Circuit, gates
+
+    rng = ctx.rng
+    tb = TapeBackend()
+    bad = 0
+    mats1, mats2 = ["X", "Y", "Z"], ["XX", "ZZ", "XZ", "ZX", "YI"]
+    dyadic = [[1.0], [0.5, 0.5], [0.25, 0.25, 0.5], [0.25, 0.75], [0.125, 0.375, 0.5], [0.0, 1.0], [0.5, 0.25, 0.25]]
+    rounded = [[0.7, 0.2, 0.1], [0.1, 0.2, 0.3, 0.4], [0.1, 0.1, 0.1, 0.7], [0.3, 0.3, 0.4], [1 / 3, 1 / 3, 1 / 3], [0.6, 0.3, 0.1]]
+    for it in range(70 if ctx.thorough else 26):
+        n = rng.choice([1, 2, 2, 3])
+        chans = []
+        for _ in range(rng.choice([1, 1, 2])):
+            kind = rng.choice(["unitary", "unitary", "pauli", "pauli", "depol"])
+            k = 1 if n == 1 else rng.choice([1, 1, 2])
+            qs = rng.sample(range(n), k)
+            probs = list(rng.choice(dyadic + rounded))
+            if kind == "unitary":
+                names = [rng.choice(mats1 if k == 1 else mats2) for _ in probs]
+                chans.append(f"gates.UnitaryChannel(({_q(qs)},), [{', '.join(f'({p!r}, {m})' for p, m in zip(probs, names))}])")
+            elif kind == "pauli":
+                strings = rng.sample(["".join(t) for t in itertools.product("IXYZ", repeat=k)][1:], min(len(probs), 4**k - 1))
+                probs = probs[: len(strings)]
+                if abs(sum(probs) - 1) > 1e-12:
+                    probs[-1] = 1 - sum(probs[:-1])
+                chans.append(f"gates.PauliNoiseChannel(({_q(qs)},), {list(zip(strings, probs))!r})")
+            else:
+                chans.append(f"gates.DepolarizingChannel(({_q(qs)},), {4**k} / {4**k - 1})")
+        if rng.random() < 0.35:  # and one ordinary mixture with a remainder
+            chans.append(f"gates.PauliNoiseChannel({rng.randrange(n)}, [('X', 0.125), ('Z', 0.25)])")
+        gs = gen_circuit(rng, n, rng.randint(1, 4), allow_m=False, allow_chan=False)
+        seq = gs + chans
+        rng.shuffle(seq)
+        seq = [gs[0]] + seq  # the channels act on a non-trivial state
+        src = f"noisy = Circuit({n})\n" + "".join(f"noisy.add({g})\n" for g in seq)
+        ns = run_source(src)
+        queue = list(ns["noisy"].queue)
+        d = 2**n
+        psi = np.array([complex(rng.gauss(0, 1), rng.gauss(0, 1)) for _ in range(d)])
+        psi /= np.linalg.norm(psi)
+        ctx.case(("full-weight", src))
+        kinds = "+".join(sorted({g.__class__.__name__ for g in queue if isinstance(g, gates.UnitaryChannel)}))
+        ctx.stat("full_weight_" + kinds)
+        try:
+            leaves = enumerate_real(tb, queue, psi, n)
+            mean = sum(w * np.outer(st, st.conj()) for _, w, st in leaves)
+            wsum = sum(w for _, w, _ in leaves)
+            cdm = Circuit(n, density_matrix=True)
+            for g in queue:
+                cdm.add(g)
+            rho = np.asarray(tb.b.execute_circuit(cdm, initial_state=np.outer(psi, psi.conj())).state())
+        except Exception as e:  # noqa: BLE001
+            bad += 1
+            ctx.fail("trajectory:full-weight-mixture", f"a mixture without identity remainder raises {type(e).__name__}: {e}", PRELUDE + src + TRAJ_REPLAY,
+                     broken=["C19_full_weight_mixture", "C19_corr_exec"])
+            continue
+        ctx.stat("full_weight_leaves", len(leaves))
+        if abs(wsum - 1) > 1e-10 or not np.allclose(mean, rho, atol=1e-10):
+            bad += 1
+            ctx.fail("trajectory:full-weight-mixture", "mixture whose coefficients sum to 1: the probability-weighted sum of all state-vector trajectories differs from the "
+                     f"density-matrix result (max diff {np.abs(mean - rho).max():.3e}, total weight {wsum}); channels {kinds}",
+                     PRELUDE + src + TRAJ_REPLAY, broken=["C19_full_weight_mixture", "C19_corr_exec"])
+    ctx.ob("C19_full_weight_mixture", bad == 0, "search", f"{bad} failures" if bad else "")
 
 
 # -- execute_circuit_repeated -------------------------------------------------------------
@@ -1312,6 +1602,7 @@ def run(ctx):
     nb = qgates.np_backend()
     suites = [("apply", lambda: apply_suite(ctx, nb)), ("ibmq", lambda: ibmq_suite(ctx, nb)), ("pauli_map", lambda: pauli_suite(ctx, nb)),
               ("zero_strength", lambda: zero_suite(ctx, nb)), ("exec", lambda: exec_suite(ctx)), ("trajectory", lambda: trajectory_suite(ctx)),
+              ("full_weight", lambda: full_weight_suite(ctx)), ("history", lambda: history_suite(ctx, nb)),
               ("repeated", lambda: repeated_suite(ctx))]
     for name, suite in suites:
         try:
